@@ -20,3 +20,16 @@ TWINS = [
     T("detector-result-in-variable", X + "ms_legacy/ppt_extractor.py", "        if is_ppt_encrypted(file_like):\n            raise ExtractionFileEncryptedError(\"PPT is encrypted or password-protected\")", "        if is_ppt_encrypted(file_like):\n            logger.debug(\"encrypted ppt\")\n            raise ExtractionFileEncryptedError(\"PPT is encrypted or password-protected\")"),
     T("hex-vs-decimal-mask", X + "archive_extractor.py", "if info.flag_bits & 0x1:", "if info.flag_bits & 1:"),
 ]
+
+# --- seeded changes kept under /verif/seeded (sub-agents saw only the property text); each must be reported by the named rule
+import os as _os
+from sa.selftest.harness import P as _P
+_SEEDS = _os.path.join(_os.path.dirname(_os.path.dirname(_os.path.dirname(_os.path.abspath(__file__)))), "seeded")
+SEEDED = [
+    ("C08-1", "C08-DET"),
+    ("C08-2", "C08-CONST"),
+    ("C08-3", "C08-PATCH"),
+    ("C08-4", "C08-CONST"),
+    ("C08-5", "C08-DET"),
+]
+MUTANTS = list(MUTANTS) + [_P("seed-" + sid, _os.path.join(_SEEDS, sid, "patch.diff"), rule) for sid, rule in SEEDED if _os.path.exists(_os.path.join(_SEEDS, sid, "patch.diff"))]
